@@ -93,6 +93,16 @@ TrBcastReturn ==
   /\ UNCHANGED <<bIdx, calls, callTid, ended, dropped, spawnedN, maxN,
                  badAccess, dupCall, wrongThread, strayCall>>
 
+\* The broadcast unwound instead of returning (a panicking panic payload):
+\* the same obligations as for a return, except the result slots.
+TrBcastUnwound ==
+  /\ Is("bcast_unwound") /\ VNone /\ Keep
+  /\ retEarly' = (retEarly \/ \E i \in 0..bN : i \notin DOMAIN ended)
+  /\ retNoHB' = (retNoHB \/ \E i \in 0..bN : GhostEv(bIdx, i) \notin knows[0])
+  /\ bN' = -1
+  /\ UNCHANGED <<bIdx, calls, callTid, ended, dropped, spawnedN, maxN,
+                 badAccess, dupCall, wrongThread, strayCall, slotsBad, overSpawn>>
+
 \* The task block of the open broadcast starts to be dropped.
 TrBlockDrop ==
   /\ (Is("atomic_drop") \/ (Is("handle_drop") /\ R.tid = 0))
@@ -141,7 +151,7 @@ TrWorkerHandleDrop == Is("handle_drop") /\ R.tid # 0 /\ VNone /\ M
 
 TrNext ==
   \/ TrReset \/ TrEnd \/ TrBcastCall \/ TrTaskBegin \/ TrTaskEnd \/ TrTaskPanic
-  \/ TrBcastReturn \/ TrBlockDrop \/ TrAccessDropped \/ TrSpawn \/ TrAtomLoad
+  \/ TrBcastReturn \/ TrBcastUnwound \/ TrBlockDrop \/ TrAccessDropped \/ TrSpawn \/ TrAtomLoad
   \/ TrAtomRmw \/ TrAtomStore \/ TrLock \/ TrUnlock \/ TrSendOffer
   \/ TrSendDone \/ TrRecv \/ TrUnpark \/ TrPark \/ TrBarArrive \/ TrBarLeave
   \/ TrSilent \/ TrWorkerHandleDrop
